@@ -74,7 +74,8 @@ def run_case(case: dict) -> Result:
         model = parser().parse(text, cls, auto_claim_comments=claim)
     except lark.exceptions.LarkError:
         return Result(discard=True)
-    except ValueError:
+    except (ValueError, OverflowError, RecursionError):
+        # a lexeme without a valid meaning (date out of range, year too large for an int) or nesting beyond the interpreter's stack: a rejection
         res.discard = True
         res.classes = ['rejected-valueerror']
         return res
@@ -137,7 +138,10 @@ def run_case(case: dict) -> Result:
         if len(toks) != b - a + 1 or any(x is not y for x, y in zip(toks, order.tokens[a:b + 1])):
             res.bad(f'tokens:{type(m).__name__}', f'{type(m).__name__}.tokens is not the store segment {a}..{b} (input {text!r})')
             break
-    # (d) independent tokenisation
+    # (d) independent tokenisation (only when the case carries the generator's piece list)
+    if case.get('raw'):
+        res.classes = sorted(classes)
+        return res
     got_p = [[type(t).RULE, t.raw_text] for t in order.tokens if t.raw_text != '']
     exp_p = [list(p) for p in L.pieces_of(chunks)]
     if got_p != exp_p:
@@ -174,4 +178,20 @@ def jobs(tier: str) -> list[Job]:
         return [Job('file-docs', 'hyp', lambda: _build_file(tier), 3000),
                 Job('single-targets', 'hyp', lambda: _build_target(tier), 2500)]
     return [Job('file-docs', 'hyp', lambda: _build_file(tier), 200000),
-            Job('single-targets', 'hyp', lambda: _build_target(tier), 100000)]
+            Job('single-targets', 'hyp', lambda: _build_target(tier), 100000),
+            Job('fuzz-bytes', 'fuzz', _fuzz_spec)]
+
+
+def _fuzz_spec() -> dict:
+    """libFuzzer over raw UTF-8 bytes (first byte: target and attribution mode) with the round-trip oracle in the target; the corpus is
+    seeded with generated documents so that mutation starts from accepted texts."""
+    import random
+    rnd = random.Random(101)
+    seeds = []
+    for i in range(150):
+        t = 'file' if i % 3 else L.TARGETS[1 + i % (len(L.TARGETS) - 1)]
+        text = L.text_of(L.build_target(rnd, t, L.Cfg(max_dirs=3)))
+        from vf.fuzz.targets_index import C01_TARGETS
+        sel = (C01_TARGETS.index(t) << 1 | (i & 1)) if t in C01_TARGETS else (i & 1)
+        seeds.append(bytes([sel]) + text.encode('utf-8'))
+    return {'runs': 400000, 'max_len': 400, 'seeds': seeds}
